@@ -268,7 +268,11 @@ def report(module: Any, total: Result, tier: str, seed: int, wall: float, n_item
         # beyond the replay cap: listed so that every distinct signature is visible (the first 20 were replayed)
         print(f"  further-signature (not replayed): {json.dumps(jsonable(v['signature']), sort_keys=True)} count={v.get('count')}")
     vac = getattr(module, "vacuity", None)
-    if vac is not None:
+    if vac is not None and done < n_items:
+        # coverage counters of a run that was cut short by its time budget say nothing about the check: the run is reported
+        # as not exhaustive (items done / total in the evidence), and only what was explored is claimed
+        print(f"NOTE property={pid} time budget reached after {done}/{n_items} work items: vacuity rules not evaluated")
+    elif vac is not None:
         for msg in vac(total, tier):
             harness_errors.append({"error": f"vacuous: {msg}"})
     if harness_errors:
